@@ -27,6 +27,11 @@ def spec(s):
 def phase_a(group):
     out = []
     for (ID, k, crate, demos, checks) in group:
+        if os.path.exists(f"/tmp/seed/{ID}/seed_out/{k}/demo/run.sh"):
+            # demonstration installed and run by its own script (in-crate test modules)
+            p = subprocess.run(["/tmp/seed/manualA.sh", ID, k, f"sh $PWD/seed_out/{k}/demo/run.sh /tmp/seed/{ID}"], capture_output=True, text=True)
+            out.append("A(run.sh) " + p.stdout.strip().splitlines()[-1][:200] if p.stdout.strip() else f"A(run.sh) {ID}-{k} ERROR {p.stderr[-200:]}")
+            continue
         p = subprocess.run(["python3", "/verif/tools/verify_seed.py", ID, k, crate, demos, checks, "--no-checks"], capture_output=True, text=True, cwd="/verif")
         try:
             m = json.load(open(f"/verif/seeded/{ID}-{k}/meta.json"))
